@@ -173,13 +173,6 @@ def run_history(acc, role, start, hist, origin):
             m.E = E2
             if m.awaiting and E2 - 1 >= m.W and E2 != E:
                 m.awaiting = False
-            st_await = b.state.name == "RESENDREQ_AWAITING"
-            if st_await != m.awaiting and not free_reset and E2 in exp:
-                # state enum is an implementation detail; only used to keep the model in step, reported as a class
-                acc.klass("model-resync-awaiting")
-                m.awaiting = st_await
-                if st_await:
-                    m.W = b.ep._max_seq_num_resend
         bf = b.bad_frames()
         if bf:
             bad("wire-malformed", f"endpoint wrote a malformed frame: {bf[0]}")
